@@ -74,8 +74,10 @@ theorem deliverArmed_needs_armed (conf : Conf) (c : Chan) (k id : Nat) (now : In
     · rename_i ha
       exact ⟨cl, hf, by simpa using ha⟩
 
-/-- … which it consumes: every delivery disarms the connection (`overshoot_le_one`: at most one
-message per guard evaluation, whatever happened to RDY / pause in between) -/
+/-- … which it consumes: every delivery disarms the connection (step level only — audit A8: this theorem says no more
+than "`armed = false` after a delivery", its hypothesis is not used). The statement its name promises — at most one
+message per guard evaluation, whatever happened to RDY / pause in between, as a property of EVERY history at micro-step
+granularity — is `Nsq.Props.C03Guard.every_delivery_has_its_guard` / `deliveries_le_guards`. -/
 theorem overshoot_le_one (conf : Conf) (c : Chan) (k id : Nat) (now : Int) {a : Nat}
     (h : (step conf c (.deliverArmed k id now)).2 = .msg a ∨ (step conf c (.deliver k id now)).2 = .msg a) :
     (∀ cl ∈ (step conf c (.deliverArmed k id now)).1.clients, cl.conn = k →
